@@ -303,6 +303,10 @@ def run(tier: str) -> int:
                   '{% x "a %} b" %}', "{%\"%}\"%}", '{% component "c" a="\\" %}" %}{% endcomponent %}',
                   '{# c #}{% component "c" %}{% slot "s" d="%" %}{% endslot %}{% endcomponent %}%']
         tr = []
+        # unterminated strings followed by many escapes / quotes (time must stay linear: the watchdog reports a hang)
+        for n_ in (8, 30, 60):
+            tr += ['{% component "c" a="x ' + "\\\\" * n_, "{% component 'c' p='C:" + "\\\\dir" * n_ + " %}tail",
+                   '{% x "' + "\\\"" * n_, '{% component "c" a="' + "ab\\\\" * n_ + '" %}{% endcomponent %}' + "\\\\" * n_ + '{% y "']
         for src in seeds_:
             tr += [src[:k] for k in range(len(src) + 1)]
             tr += [src[:k] + "%" for k in range(0, len(src), 3)]
